@@ -110,6 +110,8 @@ pub trait Queue: Sized + Clone {
     fn into_sorted_iter(self) -> Self::Sorted;
     fn sorted_back(it: &mut Self::Sorted) -> Option<Option<(Key, Prio)>>;
     fn sorted_len(it: &Self::Sorted) -> (Option<usize>, (usize, Option<usize>));
+    /// drive iter_mut through an internal-iteration method, calling `f` on every visited element
+    fn iter_mut_each(&mut self, how: u8, k: usize, f: &mut dyn FnMut(&mut Key, &mut Prio));
     /// std adaptor composition applied to the real iter_mut type
     fn iter_mut_adapt(&mut self, comp: crate::case::Comp, a: usize, b: usize) -> Option<crate::ops_iter::AdaptOut>;
     /// std adaptor composition applied to the real sorted iterator type
@@ -458,6 +460,26 @@ macro_rules! impl_pq {
             fn sorted_adapt(self, comp: crate::case::Comp, a: usize, b: usize) -> Option<crate::ops_iter::AdaptOut> {
                 crate::ops_iter::adapt_plain(self.into_sorted_iter(), elem_owned, comp, a, b)
             }
+            fn iter_mut_each(&mut self, how: u8, k: usize, f: &mut dyn FnMut(&mut Key, &mut Prio)) {
+                match how % 8 {
+                    0 | 2 => self.iter_mut().for_each(|(a, b)| f(a, b)),
+                    1 => self.iter_mut().fold((), |_, (a, b)| f(a, b)),
+                    3 => self.iter_mut().take(k).for_each(|(a, b)| f(a, b)),
+                    4 => self.iter_mut().skip(k).for_each(|(a, b)| f(a, b)),
+                    5 => self.iter_mut().step_by(k + 1).for_each(|(a, b)| f(a, b)),
+                    6 => {
+                        for (a, b) in &mut *self {
+                            f(a, b)
+                        }
+                    }
+                    _ => {
+                        let _ = self.iter_mut().try_for_each(|(a, b)| {
+                            f(a, b);
+                            Some(())
+                        });
+                    }
+                }
+            }
             fn iter_mut_adapt(&mut self, comp: crate::case::Comp, a: usize, b: usize) -> Option<crate::ops_iter::AdaptOut> {
                 crate::ops_iter::adapt_plain(self.iter_mut(), |(k, p): (&mut Key, &mut Prio)| (k.id, k.tag, p.v), comp, a, b)
             }
@@ -527,6 +549,27 @@ macro_rules! impl_dpq {
             }
             fn sorted_adapt(self, comp: crate::case::Comp, a: usize, b: usize) -> Option<crate::ops_iter::AdaptOut> {
                 Some(crate::ops_iter::adapt_full(self.into_sorted_iter(), elem_owned, comp, a, b))
+            }
+            fn iter_mut_each(&mut self, how: u8, k: usize, f: &mut dyn FnMut(&mut Key, &mut Prio)) {
+                match how % 8 {
+                    0 => self.iter_mut().for_each(|(a, b)| f(a, b)),
+                    2 => self.iter_mut().rev().for_each(|(a, b)| f(a, b)),
+                    1 => self.iter_mut().fold((), |_, (a, b)| f(a, b)),
+                    3 => self.iter_mut().take(k).for_each(|(a, b)| f(a, b)),
+                    4 => self.iter_mut().skip(k).for_each(|(a, b)| f(a, b)),
+                    5 => self.iter_mut().step_by(k + 1).for_each(|(a, b)| f(a, b)),
+                    6 => {
+                        for (a, b) in &mut *self {
+                            f(a, b)
+                        }
+                    }
+                    _ => {
+                        let _ = self.iter_mut().try_for_each(|(a, b)| {
+                            f(a, b);
+                            Some(())
+                        });
+                    }
+                }
             }
             fn iter_mut_adapt(&mut self, comp: crate::case::Comp, a: usize, b: usize) -> Option<crate::ops_iter::AdaptOut> {
                 Some(crate::ops_iter::adapt_full(self.iter_mut(), |(k, p): (&mut Key, &mut Prio)| (k.id, k.tag, p.v), comp, a, b))
